@@ -1004,6 +1004,8 @@ class t2listing(object):
                 # convert keys to indices as necessary, and expand table names:
                 tablename = tablename_from_specification(tspec)
                 if tablename in tables:
+                    if not h in tables[tablename]._col:
+                        raise KeyError(h) # (before the listing is repositioned)
                     if isinstance(key, int):
                         index, reverse = key, False
                         if index < 0: index += tables[tablename].num_rows # as for table[key]
